@@ -49,7 +49,7 @@ def pick_instances(spec, tier, seed):
     return out
 
 
-def evaluate_all(pol, env, td0, leaves, seam_script=None):
+def evaluate_all(pol, env, td0, leaves, eval_kw="actions", phase="test"):
     res = {}
     by_len = {}
     for h in leaves:
@@ -61,11 +61,11 @@ def evaluate_all(pol, env, td0, leaves, seam_script=None):
             acts = torch.tensor([list(h) for h in chunk], dtype=torch.long).reshape(len(chunk), L)
             E._set_bs(env, len(chunk))
             with torch.no_grad(), Seam(tile_rows=True).active():
+                kw = {eval_kw: acts}
                 try:
-                    out = pol(td, env, actions=acts, return_sum_log_likelihood=False, return_entropy=True, calc_reward=True)
+                    out = pol(td, env, phase=phase, return_sum_log_likelihood=False, return_entropy=True, calc_reward=True, **kw)
                 except KeyError:
-                    out = pol(td, env, actions=acts, return_sum_log_likelihood=False, calc_reward=True)
-                    out["entropy"] = torch.full((len(chunk),), float("nan"))
+                    out = pol(td, env, phase=phase, return_sum_log_likelihood=False, calc_reward=True, **kw)
             if "entropy" not in out:
                 out["entropy"] = torch.full((len(chunk),), float("nan"))
             ll = out["log_likelihood"].double()
@@ -114,7 +114,8 @@ def unit(item):
         leaves = tree.leaves
         p.add(states=tree.states, transitions=tree.transitions)
         try:
-            ev = evaluate_all(pol, env, td0, leaves)
+            phase = "train" if train else "test"
+            ev = evaluate_all(pol, env, td0, leaves, flags.get("eval_kw", "actions"), phase)
         except Exception as e:  # noqa: BLE001
             p.violation(sig(pkey, skey, f"crash:{type(e).__name__}", f"evaluate|{mode}"), dict(kind="c11", policy=pkey, spec=skey, instance_id=iid, instance=inst, wseed=wseed, train=train, what="evaluate"), f"{pkey} x {skey} {iid} ({mode}): evaluate mode crashed: {type(e).__name__}: {str(e)[:120]}")
             continue
@@ -161,9 +162,9 @@ def unit(item):
             E._set_bs(env, B1)
             with torch.no_grad(), seam.active():
                 try:
-                    o = pol(td, env, decode_type="sampling", return_entropy=True)
+                    o = pol(td, env, phase=phase, decode_type="sampling", return_entropy=True)
                 except KeyError:
-                    o = pol(td, env, decode_type="sampling")
+                    o = pol(td, env, phase=phase, decode_type="sampling")
                     o["entropy"] = torch.full((B1,), float("nan"))
             if "entropy" not in o:
                 o["entropy"] = torch.full((B1,), float("nan"))
@@ -185,9 +186,9 @@ def unit(item):
         E._set_bs(env, B1)
         with torch.no_grad(), Seam(tile_rows=True).active():
             try:
-                o = pol(td, env, decode_type="greedy", return_entropy=True)
+                o = pol(td, env, phase=phase, decode_type="greedy", return_entropy=True)
             except KeyError:
-                o = pol(td, env, decode_type="greedy")
+                o = pol(td, env, phase=phase, decode_type="greedy")
                 o["entropy"] = torch.full((B1,), float("nan"))
         if "entropy" not in o:
             o["entropy"] = torch.full((B1,), float("nan"))
@@ -200,7 +201,7 @@ def unit(item):
                 try:
                     with torch.no_grad(), Seam(tile_rows=True).active():
                         E._set_bs(env, B1 * k)
-                        o = pol(td, env, decode_type=dt, num_starts=k)
+                        o = pol(td, env, phase=phase, decode_type=dt, num_starts=k)
                 except Exception as e:  # noqa: BLE001
                     p.note(f"{pkey} x {skey}: {dt} with num_starts={k} not runnable here ({type(e).__name__}: {str(e)[:80]}) - start-node rules are C12's business")
                     continue
